@@ -1068,18 +1068,30 @@ def rule_partial_filters(ctx, ts, px):
             while isinstance(inner, N.Filter) and inner.node is not None:
                 inner = inner.node          # x | map('first') | f : the sequence is x
             operand = xs(inner)
-            base = operand.rsplit(".", 1)[0] if "." in operand else operand
-            ok = False
-            for g in stack:
-                if g.kind == "for":
-                    it = xs(g.node.iter)
-                    # a loop over the sequence itself or over a part of it (fields_except_padding of the same object) runs only if it is non-empty
-                    if it == operand or (it.startswith(base + ".") and "fields" in it and "fields" in operand):
-                        ok = True
-                elif g.kind in ("if", "condexpr") and g.pol is not False:
-                    tst = xs(g.node)
-                    if operand in tst:
-                        ok = True
+
+            def nonempty_here(operand, stack):
+                base = operand.rsplit(".", 1)[0] if "." in operand else operand
+                for g in stack:
+                    if g.kind == "for":
+                        it = xs(g.node.iter)
+                        # a loop over the sequence itself or over a part of it (fields_except_padding of the same object) runs only if it is non-empty
+                        if it == operand or (it.startswith(base + ".") and "fields" in it and "fields" in operand):
+                            return True
+                    elif g.kind in ("if", "condexpr") and g.pol is not False:
+                        if operand in xs(g.node):
+                            return True
+                return False
+            ok = nonempty_here(operand, stack)
+            mac = j2front.enclosing_macro(stack)
+            if not ok and mac is not None and isinstance(inner, N.Name) and inner.name in [a_.name for a_ in mac.args]:
+                # the sequence is a parameter of a helper macro: judged at every call of the macro, for the argument it is given
+                k_ = [a_.name for a_ in mac.args].index(inner.name)
+                sites = []
+                for t2 in ts.of_lang(t.lang, t.kind):
+                    for n2, st2 in j2front.walk(t2.ast):
+                        if isinstance(n2, N.Call) and isinstance(n2.node, N.Name) and n2.node.name == mac.name and len(n2.args) > k_:
+                            sites.append((xs(n2.args[k_]), st2))
+                ok = bool(sites) and all(nonempty_here(a_, st2) for a_, st2 in sites)
             ctx.ob(R, t.rel, f"{operand} | {node.name} @ {j2front.construct_path(stack)}", ok,
                    "" if ok else f"`{node.name}` raises on an empty sequence and `{operand}` can be empty here (a type without fields): generation fails for a valid definition",
                    getattr(node, "lineno", None))
@@ -1148,6 +1160,13 @@ def rule_py_imports(ctx, px):
     for st, gd in pyfront.walk_guarded(f.node.body):
         if isinstance(st, ast.Assign) and any(e == f"isinstance({tparam}, pydsdl.ServiceType)" and p for e, p in pyfront.guard_terms(gd)):
             svc = ast.unparse(st.value).replace(" ", "")
+    if svc is None:
+        # ... or as a conditional expression
+        for n_ in ast.walk(f.node):
+            if isinstance(n_, ast.IfExp) and ast.unparse(n_.test) == f"isinstance({tparam}, pydsdl.ServiceType)":
+                svc = ast.unparse(n_.body).replace(" ", "")
+            elif isinstance(n_, ast.IfExp) and ast.unparse(n_.test) == f"not isinstance({tparam}, pydsdl.ServiceType)":
+                svc = ast.unparse(n_.orelse).replace(" ", "")
     ok = svc is not None and f"{tparam}.request_type.attributes" in svc and f"{tparam}.response_type.attributes" in svc and "+" in svc
     ctx.ob(R, m.rel, f"{f.short} :: a service contributes the attributes of its request and of its response", ok, f"{svc}", f.node.lineno)
     # (b) (c) the two extractions
@@ -1158,6 +1177,12 @@ def rule_py_imports(ctx, px):
             v = n.generators[0].target.id
             elt = ast.unparse(n.elt)
             conds = " and ".join(ast.unparse(c) for c in n.generators[0].ifs)
+            # a loop over the attributes' data types (`for dt in [x.data_type for x in attributes]`): dt stands for x.data_type
+            src_it = pyfront.subst_locals(f.node, n.generators[0].iter)
+            if isinstance(src_it, (ast.ListComp, ast.GeneratorExp)) and len(src_it.generators) == 1 and isinstance(src_it.generators[0].target, ast.Name) \
+                    and not src_it.generators[0].ifs and ast.unparse(src_it.elt) == f"{src_it.generators[0].target.id}.data_type":
+                elt = re.sub(rf"\b{re.escape(v)}\b", f"{v}.data_type", elt)
+                conds = re.sub(rf"\b{re.escape(v)}\b", f"{v}.data_type", conds)
             for hn, h in helpers.items():     # a local predicate spelled out
                 if f"{hn}({v}.data_type)" in conds and h.args.args:
                     hp = h.args.args[0].arg
@@ -1184,6 +1209,12 @@ def rule_py_imports(ctx, px):
                 a = ast.unparse(pyfront.subst_locals(f.node, c.args[0]))
                 if a == f"{lv}.full_namespace":
                     appends.append(pyfront.guard_terms(pyfront.guards_of(f.node, c) or ()))
+    # ... or de-duplicated in one step: list(dict.fromkeys(<every dependency's full_namespace>))
+    for c in ast.walk(f.node):
+        if isinstance(c, ast.Call) and ast.unparse(c.func) == "dict.fromkeys" and len(c.args) == 1 and isinstance(c.args[0], (ast.GeneratorExp, ast.ListComp)) \
+                and len(c.args[0].generators) == 1 and not c.args[0].generators[0].ifs and isinstance(c.args[0].generators[0].target, ast.Name) \
+                and ast.unparse(c.args[0].elt) == f"{c.args[0].generators[0].target.id}.full_namespace":
+            appends.append([])
     only_dedup = all(all((" not in " in e and p) or (" in " in e and not p) for e, p in t) for t in appends)
     ctx.ob(R, m.rel, f"{f.short} :: every namespace found is listed (de-duplication is the only filter)", bool(appends) and only_dedup and not skips,
            "" if bool(appends) and only_dedup and not skips else f"append guards {appends}, skips {len(skips)}", f.node.lineno)
